@@ -10,20 +10,21 @@ git checkout -q -- . ; git clean -fdq -e SEEDED
 cp $MUT/*_test.go $DEST/ || exit 2
 MODFLAG=""
 case "$DEST" in minter-connector/*)
-  sed "s#^replace github.com/MinterTeam/mhub2/module .*#replace github.com/MinterTeam/mhub2/module => $WT/module#" $WT/minter-connector/go.mod > /tmp/seed.alt.mod
-  cat $WT/minter-connector/go.sum $WT/module/go.sum > /tmp/seed.alt.sum
-  MODFLAG="-modfile=/tmp/seed.alt.mod" ;;
+  sed "s#^replace github.com/MinterTeam/mhub2/module .*#replace github.com/MinterTeam/mhub2/module => $WT/module#" $WT/minter-connector/go.mod > /tmp/seed.alt.$$.mod
+  cat $WT/minter-connector/go.sum $WT/module/go.sum > /tmp/seed.alt.$$.sum
+  MODFLAG="-modfile=/tmp/seed.alt.$$.mod" ;;
 esac
 demo() { (cd $WT/$DEST && TMPDIR=/dev/shm go test $MODFLAG -vet=off -count=1 -run "$RUN" . 2>&1 | tail -15); }
-echo "== demo on unchanged tree"; demo > /tmp/seed_demo_base.log; tail -3 /tmp/seed_demo_base.log
-grep -q "^ok" /tmp/seed_demo_base.log && BASE=pass || BASE=fail
+echo "== demo on unchanged tree"; demo > /tmp/seed_demo_base.$$.log; tail -3 /tmp/seed_demo_base.$$.log
+grep -q "^ok" /tmp/seed_demo_base.$$.log && BASE=pass || BASE=fail
 for f in $MUT/*_test.go; do rm -f $DEST/$(basename $f); done
 git apply $MUT/patch.diff || { echo "PATCH DOES NOT APPLY"; exit 2; }
 echo "== build"; (cd $WT/$MOD && go build $MODFLAG ./... 2>&1 | tail -5) ; BUILD=$?
-echo "== suite"; (cd $WT/module && go test -vet=off -count=1 ./x/... 2>&1 | grep -v "no test files" | tail -8) > /tmp/seed_suite.log; cat /tmp/seed_suite.log
-grep -q "^FAIL\|^---" /tmp/seed_suite.log && SUITE=fail || SUITE=pass
+echo "== suite"; (cd $WT/module && go test -vet=off -count=1 ./x/... 2>&1 | grep -v "no test files" | tail -8) > /tmp/seed_suite.$$.log; cat /tmp/seed_suite.$$.log
+grep -q "^FAIL\|^---" /tmp/seed_suite.$$.log && SUITE=fail || SUITE=pass
 cp $MUT/*_test.go $DEST/
-echo "== demo with patch"; demo > /tmp/seed_demo_mut.log; tail -6 /tmp/seed_demo_mut.log
-grep -q "^ok" /tmp/seed_demo_mut.log && MUTR=pass || MUTR=fail
+echo "== demo with patch"; demo > /tmp/seed_demo_mut.$$.log; tail -6 /tmp/seed_demo_mut.$$.log
+grep -q "^ok" /tmp/seed_demo_mut.$$.log && MUTR=pass || MUTR=fail
 git checkout -q -- . ; git clean -fdq -e SEEDED
 echo "RESULT base_demo=$BASE suite_with_patch=$SUITE demo_with_patch=$MUTR"
+rm -f /tmp/seed_demo_base.$$.log /tmp/seed_suite.$$.log /tmp/seed_demo_mut.$$.log /tmp/seed.alt.$$.mod /tmp/seed.alt.$$.sum
